@@ -197,8 +197,8 @@ def run(chk):
     chk.rule("R15.2", "form and frame setters compute before they commit; form restored on failure")
     chk.rule("R15.3", "name/alias/index access agrees between reading and writing and with the current form")
     chk.rule("R15.4", "pickling, array finalisation and StateVector<->Orbit conversion preserve values and metadata")
-    r15_1(chk)
-    r15_2(chk)
-    r15_3(chk)
-    r15_4(chk)
+    chk.guard(r15_1, chk)
+    chk.guard(r15_2, chk)
+    chk.guard(r15_3, chk)
+    chk.guard(r15_4, chk)
     chk.assume("np.ndarray.setfield on .base writes all six values in one call (no partial write visible to Python code)")
